@@ -318,10 +318,30 @@ fn emit_merge_models(sink: &mut CaseSink, st: &mut Stats, g: &Graph) {
         }
     }
     let (mk, mk2) = (mask.clone(), mask.clone());
-    if let Some((cols, _)) = watched(15000, move || vh::factor_columns(&mk)) {
+    if let Some((cols, ordering)) = watched(15000, move || vh::factor_columns(&mk)) {
+        // the pattern in the permuted numbering that QDLDL factors: tree vertex k is original vertex ordering[k]
+        let mut inv = vec![0usize; n];
+        for (k, &o) in ordering.iter().enumerate() { inv[o] = k; }
+        let pe: Vec<(usize, usize)> = g.edges.iter().map(|e| (inv[e.0], inv[e.1])).collect();
+        parts.push(format!("c17_fill {} {} {}", n, clist(&pe, |e| format!("({},{})", e.0, e.1)), nnat(&cols)));
         if let Some(t) = watched(15000, move || vh::merge_trace(&mk2, "none")) {
             let par: Vec<String> = t.before.parent.iter().map(|p| if *p == vh::NO_PARENT_V { "None".to_string() } else { format!("Some {}", p) }).collect();
             parts.push(format!("c17_nomerge {} {} {} [{}]", nnat(&cols), nnat(&t.before.snode), nnat(&t.before.separators), par.join(";")));
+            parts.push(format!("c17_ps {} {} [{}]", nnat(&cols), nnat(&t.before.snode), par.join(";")));
+        }
+    }
+    let mk = mask.clone();
+    if let Some(ct) = watched(15000, move || vh::merge_trace_cg(&mk)) {
+        if let Some((edges, taken)) = &ct.kruskal {
+            let t = &ct.trace;
+            let ncl_live = t.loop_end_snode.iter().filter(|c| !c.is_empty()).count();
+            let es = clist(edges, |e| format!("({},{},{}%Z)", e.0, e.1, e.2));
+            parts.push(format!("c17_kruskal {} {} {} {}", t.loop_end_snode.len(), ncl_live - 1, es, cblist(taken)));
+            let mst: Vec<(usize, usize)> = edges.iter().zip(taken.iter()).filter(|(_, k)| **k).map(|(e, _)| (e.0, e.1)).collect();
+            let alle: Vec<(usize, usize)> = edges.iter().map(|e| (e.0, e.1)).collect();
+            let pl = |v: &[(usize, usize)]| clist(v, |e| format!("({},{})", e.0, e.1));
+            let vlast = *t.before.vertex_post.last().unwrap_or(&0);
+            parts.push(format!("c17_cgtree {} {} {} {} {} {} {} {}", nnat(&t.loop_end_snode), pl(&mst), pl(&alle), vlast, ppar(&t.after.parent), nat(&t.after.snode_post), nnat(&t.after.snode), nnat(&t.after.separators)));
         }
     }
     if parts.is_empty() { return; }
